@@ -92,6 +92,8 @@ def build(case):
             if st.get('op') == 'await_request':
                 st['nth'] = 2
         sc['ws'] = dict(sc['ws'], proxies={'http': 'http://proxy.test:3128'})
+    if case.get('app'):
+        sc['app'] = list(case['app'])
     if case.get('app_echo'):
         sc['app'] = [{'when': {'name': 'text'},
                       'do': [{'op': 'send_text', 'text': 'loop-echo'}]}]
@@ -118,6 +120,9 @@ def ref_payload(op):
     if k == 'send_text':
         return 1, op['text'].encode('utf-8')
     if k == 'send_binary':
+        if 'fill' in op:
+            h, n, b = op['fill']
+            return 2, bytes.fromhex(h) + bytes([b]) * n
         return 2, bytes.fromhex(op['hex'])
     if k == 'send_ping':
         return 9, bytes.fromhex(op.get('hex', ''))
@@ -204,26 +209,36 @@ def race_candidates(case, tags=None):
 def race_schedules(case, cands, depth, cap=None, seed=0):
     """Every set of at most `depth` site rules over the candidates x every
     target thread x every initial order; a seeded sample of `cap` of them
-    when there are more."""
+    when there are more.  Compact form: (candidate indices, targets, order);
+    race_schedule() expands one."""
     import itertools
     import random as _random
     nt = len(case['threads']) + 1
-    orders = [[]] + [[[1, t]] for t in range(1, nt)]
     out = []
     for k in range(1, depth + 1):
-        for combo in itertools.combinations(cands, k):
-            targets = [[t for t in range(nt) if t != c[0]] for c in combo]
+        for combo in itertools.combinations(range(len(cands)), k):
+            targets = [[t for t in range(nt) if t != cands[c][0]]
+                       for c in combo]
             for tos in itertools.product(*targets):
-                rules = [[c[0], list(c[1]) if isinstance(c[1], tuple) else c[1],
-                          c[2], to] for c, to in zip(combo, tos)]
-                for o in orders:
-                    out.append({'kind': 'sites', 'rules': rules, 'points': o})
+                for o in range(nt):
+                    out.append((combo, tos, o))
     if cap is not None and len(out) > cap:
         rng = _random.Random('race-%s-%d' % (case.get('name'), seed))
-        small = [s for s in out if len(s['rules']) < depth]
-        big = [s for s in out if len(s['rules']) == depth]
+        small = [s for s in out if len(s[0]) < depth]
+        big = [s for s in out if len(s[0]) == depth]
         if len(small) >= cap:
             out = rng.sample(small, cap)
         else:
             out = small + rng.sample(big, cap - len(small))
     return out
+
+
+def race_schedule(cands, compact):
+    combo, tos, o = compact
+    rules = []
+    for c, to in zip(combo, tos):
+        tid, where, occ = cands[c]
+        rules.append([tid, list(where) if isinstance(where, tuple) else where,
+                      occ, to])
+    return {'kind': 'sites', 'rules': rules,
+            'points': [[1, o]] if o else []}
